@@ -9,13 +9,14 @@ import aiohttp
 
 from pyvc import *
 from pyvc.loader import _STOP, _STRIP_DEFAULT
-from pyvc.stubs import Opaque, NullLogger, Clock, StubLoop, make_sleep, exception_reps
+from pyvc.stubs import Opaque, NullLogger, Clock, StubLoop, StubEvent, make_sleep
 from kopf._cogs.clients import errors
 from kopf._cogs.structs import credentials
 from kopf._core.actions import throttlers
 
 FINDING_RETRY_AFTER = 'F-C12-1'      # int(float(Retry-After)) truncates fractional values
 FINDING_NONOBJECT_BODY = 'F-C12-2'   # truthy non-object JSON error body -> AttributeError instead of the status error
+FINDING_HTTP_DATE = 'F-C12-3'        # Retry-After in the HTTP-date form -> ValueError out of request(), the 429 is not retried
 
 
 def not_ours(e):
@@ -496,15 +497,30 @@ def length_of(p):
     return vc_len(p)
 
 
-def contains(text, marker):
-    return text.contains(marker) if isinstance(text, SStr) else (marker in text)
+class _GhostText:
+    """str(exception) by contract: some string.  Only substring tests are answered, each by a free boolean
+    (one per tested substring) -- cheaper than a z3 string and all the verified code does with it."""
+
+    def __init__(self, vc):
+        self.vc, self.has = vc, {}
+
+    def contains(self, sub):
+        if not isinstance(sub, str):
+            raise Unsupported('substring test with a symbolic needle')
+        if sub not in self.has:
+            self.has[sub] = self.vc.bool(f'{sub!r} in str(e)')
+        return self.has[sub]
+
+    def __contains__(self, sub):
+        return bool(self.contains(sub))
 
 
 SSL_CLOSED_MARKER = '[SSL: APPLICATION_DATA_AFTER_CLOSE_NOTIFY]'
 
 
 class _RetryAfterHeader:
-    """The value of a `Retry-After` header: a non-empty string spelling the number `value` (delay-seconds)."""
+    """The value of a `Retry-After` header: a non-empty string spelling the number `value` (delay-seconds),
+    or (value None) an HTTP-date, the other form RFC 7231 sec. 7.1.3 allows."""
     def __init__(self, value):
         self.value = value
 
@@ -527,7 +543,7 @@ def _new_exc(cls, *args):
                   'aiohttp hierarchy); ClientSession.closed: a boolean',
                   'asyncio.sleep(d): suspends for d seconds, cancellable',
                   'itertools.chain / itertools.repeat / enumerate: lazy concatenation / constant stream / (start+i, x_i)',
-                  'float(<Retry-After header>) is the number the header spells (delay-seconds form; the HTTP-date form is not modelled: it raises ValueError out of request())',
+                  'float(<Retry-After header>) is the number the header spells (delay-seconds form) or raises ValueError (HTTP-date form)',
                   'str(exception): some string'])
 def N2(vc):
     """
@@ -539,7 +555,8 @@ def N2(vc):
       * success (check_response passes, contract N1) returns that response, no sleep;
       * a failure is retried (one sleep, then the next attempt) only if it is of a retried kind --
         aiohttp.ClientConnectionError, asyncio.TimeoutError, APIError with status 5xx/403/429 -- and only if
-        the k-th backoff exists (=> attempts <= len(backoffs)+1); a retried kind escalates only when the
+        the k-th backoff exists (back edge only if k < len(backoffs); with the invariant: attempts <=
+        len(backoffs)+1); a retried kind escalates only when the
         backoffs are exhausted (or the failure says the session is dead: str(e) has the SSL close-notify marker
         => APISessionClosed);
       * the sleep equals backoffs[k], except for a 429 that names a retry-after value ra (Retry-After header,
@@ -549,7 +566,8 @@ def N2(vc):
         exception, without sleeping; RuntimeError on a closed session escalates as APISessionClosed;
         a cancellation (at the request or in the sleep) propagates.
     KNOWN FINDING F-C12-1: `int(float(header))` truncates: a fractional Retry-After (0.5; 2.5) waits less
-    than requested.
+    than requested.  KNOWN FINDING F-C12-3: a Retry-After in the HTTP-date form makes float() raise
+    ValueError out of request(): that 429 is neither retried nor escalated as itself.
     """
     import itertools
     from pyvc.loader import _shadow_builtins
@@ -570,7 +588,7 @@ def N2(vc):
                                                     request_timeout=None, connect_timeout=None))
     method, url = 'patch', 'https://server/apis/kopf.dev/v1/kopfexamples/x'
     payload, headers, timeout = Opaque('payload'), Opaque('headers'), Opaque('timeout')
-    st = {'failure': None, 'response': None, 'checked': None, 'closed': None, 'msg': {}, 'ra': None, 'status': None}
+    st = {'failure': None, 'response': None, 'checked': None, 'closed': None, 'msg': {}, 'ra': None, 'ra_date': False, 'status': None}
     ghost = {'k': 0, 'phase': 0}
 
     # ---- callee contracts
@@ -618,7 +636,7 @@ def N2(vc):
         else:
             vc.assume(And(status >= 600, status <= 999), 'beyond 5xx'); cls = errors.APIError
         if k == 429:
-            hk = vc.nondet(3, 'Retry-After header: none / other headers only / numeric')
+            hk = vc.nondet(4, 'Retry-After header: none / other headers only / numeric / HTTP-date')
             dk = vc.nondet(3, 'body: none / Status without retryAfterSeconds / with')
             if hk == 1:
                 hdrs = {'Content-Type': 'application/json'}
@@ -627,13 +645,16 @@ def N2(vc):
                 vc.assume(v >= 0, 'delay-seconds are not negative')
                 hdrs = {'Retry-After': _RetryAfterHeader(v), 'Content-Type': 'application/json'}
                 st['ra'] = v
+            if hk == 3:
+                hdrs = {'Retry-After': _RetryAfterHeader(None)}
+                st['ra_date'] = True
             if dk == 1:
                 body = {'kind': 'Status', 'code': 429, 'details': {}}
             if dk == 2:
                 r2 = vc.int('retryAfterSeconds')
                 vc.assume(r2 >= 0, 'seconds are not negative')
                 body = {'kind': 'Status', 'code': 429, 'details': {'retryAfterSeconds': r2}}
-                if hk != 2:
+                if hk not in (2, 3):
                     st['ra'] = r2 if r2 != 0 else None      # 0 = "not set" in the Status schema (omitempty)
         elif k in (403, '5xx'):
             # a Retry-After on other statuses is data the contract says nothing about
@@ -649,13 +670,15 @@ def N2(vc):
 
     def my_float(x=0.0):
         if isinstance(x, _RetryAfterHeader):
+            if x.value is None:
+                raise ValueError('could not convert string to float: <an HTTP-date>')
             return x.value
         return shadow['float'](x)
 
     def my_str(x=''):
         if isinstance(x, BaseException):
             if id(x) not in st['msg']:
-                st['msg'][id(x)] = (x, vc.str('str(e)'))
+                st['msg'][id(x)] = (x, _GhostText(vc))
             return st['msg'][id(x)][1]
         return shadow['str'](x)
 
@@ -682,7 +705,7 @@ def N2(vc):
         return isinstance(f, (aiohttp.ClientConnectionError, asyncio.TimeoutError))
 
     def ssl_closed(f):
-        return contains(st['msg'][id(f)][1], SSL_CLOSED_MARKER) if id(f) in st['msg'] else False
+        return st['msg'][id(f)][1].has.get(SSL_CLOSED_MARKER, False) if id(f) in st['msg'] else False
 
     def backedge(loc):
         k = ghost['k']
@@ -690,7 +713,8 @@ def N2(vc):
         reqs = [e for e in ev if e[0] == 'request']
         sleeps = [e for e in ev if e[0] == 'sleep']
         f = st['failure']
-        vc.canary('canary.never_retries', False)
+        if cfg == 'scalar':
+            vc.canary('canary.never_retries', False)
         vc.ensure('one_attempt_per_iteration', len(reqs) == 1)
         vc.ensure('retried_kinds', f is not None and spec_retried(f))
         vc.ensure('attempts_bounded', has_backoff(k))
@@ -748,8 +772,9 @@ def N2(vc):
         vc.ensure('cancellation_propagates', escaped is cancelled[0])
         return ('cancelled',)
     vc.ensure('one_attempt_per_iteration', len(reqs) == 1)
-    vc.canary('canary.never_escalates', escaped is None)
-    vc.canary('canary.never_succeeds', escaped is not None)
+    if cfg == 'scalar':      # (a canary costs a model; one configuration is enough to show non-vacuity)
+        vc.canary('canary.never_escalates', escaped is None)
+        vc.canary('canary.never_succeeds', escaped is not None)
     if escaped is None:
         checks = [e for e in ev if e[0] == 'check_response']
         vc.ensure('success_returns_response', f is None and result is st['response'] and result is not None)
@@ -763,10 +788,604 @@ def N2(vc):
     retried = spec_retried(f)
     dead = ssl_closed(f)
     closed = st['closed'] if st['closed'] is not None else False
-    vc.ensure('retried_kinds', Implies(And(retried, Not(dead)), Not(has_backoff(k))))
+    http_date = {FINDING_HTTP_DATE: st['ra_date']}
+    vc.ensure('retried_kinds', Implies(And(retried, Not(dead)), Not(has_backoff(k))), excuse=http_date)
     session_gone = Or(And(isinstance(f, RuntimeError), closed), And(retried, dead))
-    vc.ensure('escalates_at_once', Or(escaped is f, And(isinstance(escaped, errors.APISessionClosed), session_gone)))
+    vc.ensure('escalates_at_once', Or(escaped is f, And(isinstance(escaped, errors.APISessionClosed), session_gone)),
+              excuse=http_date)
     vc.ensure('session_closed_reauth', Implies(And(isinstance(f, RuntimeError), closed), isinstance(escaped, errors.APISessionClosed)))
     if isinstance(f, errors.APIUnauthorizedError):
         vc.ensure('escalates_at_once', escaped is f)
     return ('raise', cfg, type(escaped).__name__)
+
+
+# =============================================================================================== T2
+class _DelayIterator:
+    """An iterator of delays (the `source_of_delays`): every `next()` either yields an arbitrary real or is exhausted."""
+
+    def __init__(self, vc, name):
+        self.vc, self.name, self.yielded = vc, name, []
+
+    def __iter__(self):
+        return self
+
+    def __next__(self):
+        self.vc.emit('next', self)
+        if self.vc.nondet(2, f'{self.name}: yields / exhausted') == 1:
+            self.yielded.append(None)
+            raise StopIteration
+        d = self.vc.real('delay')
+        self.yielded.append(d)
+        return d
+
+
+class _Delays:
+    """The configured `settings.queueing.error_delays`: any re-iterable; only iter() is applied to it."""
+
+    def __init__(self, vc):
+        self.vc = vc
+
+    def __iter__(self):
+        it = _DelayIterator(self.vc, 'iter(delays)')
+        self.vc.emit('iter(delays)', it)
+        return it
+
+
+def same_opt(a, b):
+    """Equality of two Optional[number]s (no fork)."""
+    if a is None or b is None:
+        return a is None and b is None
+    return Eq(a, b)
+
+
+class _BodyBase(BaseException):
+    """a BaseException that is not an Exception (e.g. a cancellation, SystemExit)"""
+
+
+@harness('T2', targets='kopf._core.actions.throttlers.throttled', props=['C12'],
+         clauses=['gate', 'error_activates', 'delay_selection', 'no_delays_no_throttling', 'others_propagate',
+                  'success_resets', 'pause_served_or_remembered', 'frame'],
+         canaries=['canary.always_runs', 'canary.never_swallows', 'canary.always_served'],
+         trusted=['contextlib.asynccontextmanager (real library code, run natively)',
+                  'loop.time(): the ghost loop clock; monotone; moves only at suspension points',
+                  'iter()/next() on the delays: next() yields an arbitrary real or is exhausted'])
+def T2(vc):
+    """
+    `async with throttled(throttler=T, delays=D, wakeup=W, errors=E) as should_run: BODY` as a state
+    machine on T = (source_of_delays, last_used_delay, active_until), for every pre-state, every loop
+    time, every body duration and outcome (aiotime.sleep by its proved contract T1):
+      gate: if T is active, the remaining time (active_until - now) is slept first (interruptible by W);
+        should_run <=> T was not active or that sleep completed -- so the body is never told to run
+        before active_until; a completed sleep de-activates T, an interrupted one leaves it as it was;
+      error of class E (an Exception) while should_run: swallowed; the delay is the next one of the
+        current series (T.source_of_delays, or a fresh iter(D) if there is none -- consecutive errors walk
+        down the list), or the last used one when the series is exhausted; T.active_until = (time of
+        the error) + delay, T.last_used_delay = delay; the delay is slept at once (interruptible): on
+        return either now >= active_until and T is de-activated, or T stays active until then;
+        no delays at all (empty D, nothing used before) => no throttling, still swallowed;
+      any other outcome propagates untouched (not of class E; a non-Exception BaseException even if E lists
+        its class; an error while told not to run) and leaves T as it was; success while should_run resets
+        the series (source, last used), success while told not to run changes nothing;
+      frame: only T is written; W is neither set nor cleared; D is only iter()-ed, at most once.
+    """
+    clock = Clock()
+    A0 = vc.opt('active_until', vc.real)
+    L0 = vc.opt('last_used_delay', vc.real)
+    S0 = _DelayIterator(vc, 'source_of_delays') if vc.nondet(2, 'source_of_delays is None?') == 1 else None
+    th = throttlers.Throttler(source_of_delays=S0, last_used_delay=L0, active_until=A0)
+    delays = _Delays(vc)
+    wakeup = StubEvent('wakeup') if vc.nondet(2, 'wakeup is None?') == 1 else None
+    custom = vc.nondet(2, 'errors: default (Exception) / (KeyError, <a BaseException class>)') == 1
+    E = (KeyError, _BodyBase) if custom else Exception
+    extra = {'errors': E} if custom else {}
+    t0 = clock.now
+    st = dict(entered=False, should_run=None, t_yield=None, A_yield=None, S_yield=None, L_yield=None, n_yield=None,
+              raised=None, t_err=None, exited=False)
+    sleep = make_sleep(clock)
+    vc.used('aiotime.sleep', 'T1')
+    ld = vc.load('kopf._core.actions.throttlers', 'throttled', stubs={
+        'aiotime.sleep': sleep, 'asyncio.get_running_loop': lambda: StubLoop(clock)})
+
+    async def use():
+        async with ld.fn(throttler=th, delays=delays, wakeup=wakeup, logger=NullLogger(), **extra) as should_run:
+            st.update(entered=True, should_run=should_run, t_yield=clock.now, A_yield=th.active_until,
+                      S_yield=th.source_of_delays, L_yield=th.last_used_delay, n_yield=len(vc.trace))
+            await suspend('body')
+            kinds = ['ok', Exception, KeyError, _BodyBase]
+            k = kinds[vc.nondet(len(kinds), 'body outcome')]
+            st['t_err'] = clock.now
+            if k != 'ok':
+                st['raised'] = k('from the body')
+                raise st['raised']
+        st['exited'] = True
+
+    def on_suspend(site):
+        if site == 'body':
+            clock.advance(0)
+        if wakeup is not None:
+            wakeup.havoc()
+
+    escaped = None
+    try:
+        vc.drive(use(), on_suspend)
+    except BaseException as e:
+        if not_ours(e):
+            raise
+        escaped = e
+    tr = vc.trace
+    vc.ensure('frame', st['entered'])
+    if not st['entered']:
+        return ('not-entered', type(escaped).__name__)
+    pre, post = tr[:st['n_yield']], tr[st['n_yield']:]
+    sl1 = [ev for ev in pre if ev[0] == 'sleep']
+    sl2 = [ev for ev in post if ev[0] == 'sleep']
+    names = [ev[0] for ev in tr]
+    should_run = st['should_run']
+    vc.ensure('frame', 'event.set' not in names and 'event.clear' not in names)
+    vc.ensure('frame', all(ev[2] is wakeup for ev in sl1 + sl2))
+    vc.ensure('frame', names.count('iter(delays)') <= 1 and not any(ev[0] in ('next', 'iter(delays)') for ev in pre))
+    # ---- the gate
+    vc.ensure('gate', isinstance(should_run, bool))
+    vc.canary('canary.always_runs', should_run is True)
+    if A0 is None:
+        vc.ensure('gate', len(sl1) == 0 and should_run is True)
+    else:
+        vc.ensure('gate', len(sl1) == 1)
+        if len(sl1) == 1:
+            m1, r1 = sl1[0][1], sl1[0][3]
+            vc.ensure('gate', Eq(m1, A0 - t0))
+            vc.ensure('gate', should_run == (r1 is None))
+            vc.ensure('gate', Implies(should_run, st['t_yield'] >= A0))
+            vc.ensure('gate', st['A_yield'] is None if r1 is None else same_opt(st['A_yield'], A0))
+    vc.ensure('gate', st['S_yield'] is S0 and same_opt(st['L_yield'], L0))
+    vc.ensure('gate', (st['A_yield'] is None) == bool(should_run))
+    # ---- after the body
+    raised = st['raised']
+    unchanged = And(th.source_of_delays is S0, same_opt(th.last_used_delay, L0), same_opt(th.active_until, st['A_yield']))
+    of_interest = raised is not None and isinstance(raised, Exception) and isinstance(raised, E)
+    if raised is None:
+        vc.ensure('others_propagate', escaped is None and st['exited'])
+        vc.ensure('success_resets', len(sl2) == 0 and 'next' not in names and 'iter(delays)' not in names)
+        if should_run:
+            vc.ensure('success_resets', th.source_of_delays is None and th.last_used_delay is None and th.active_until is None)
+        else:
+            vc.ensure('success_resets', unchanged)
+        return ('ok', bool(should_run))
+    if not (of_interest and should_run):
+        vc.ensure('others_propagate', escaped is raised)
+        vc.ensure('others_propagate', unchanged)
+        vc.ensure('others_propagate', len(sl2) == 0 and 'next' not in names and 'iter(delays)' not in names)
+        return ('propagated', type(raised).__name__, bool(should_run))
+    # ---- an error of interest while running: throttle
+    vc.canary('canary.never_swallows', escaped is raised)
+    vc.ensure('error_activates', escaped is None and st['exited'])
+    its = [ev[1] for ev in post if ev[0] == 'iter(delays)']
+    nexts = [ev[1] for ev in post if ev[0] == 'next']
+    if S0 is None:
+        vc.ensure('delay_selection', len(its) == 1 and th.source_of_delays is its[0])
+    else:
+        vc.ensure('delay_selection', len(its) == 0 and th.source_of_delays is S0)
+    src = th.source_of_delays
+    vc.ensure('delay_selection', len(nexts) == 1 and nexts[0] is src)
+    if not isinstance(src, _DelayIterator) or len(src.yielded) != 1:
+        return ('throttled-strangely',)
+    d = src.yielded[0] if src.yielded[0] is not None else L0
+    if d is None:
+        vc.ensure('no_delays_no_throttling', th.active_until is None and th.last_used_delay is None and len(sl2) == 0)
+        return ('no-delays',)
+    vc.ensure('error_activates', same_opt(th.last_used_delay, d))
+    until = st['t_err'] + d
+    vc.ensure('error_activates', len(sl2) == 1)
+    if len(sl2) != 1:
+        return ('no-second-sleep',)
+    m2, r2 = sl2[0][1], sl2[0][3]
+    vc.ensure('error_activates', Eq(m2, until - st['t_err']))
+    served = r2 is None
+    vc.canary('canary.always_served', served)
+    if served:
+        vc.ensure('pause_served_or_remembered', th.active_until is None)
+        vc.ensure('pause_served_or_remembered', clock.now >= until)
+    else:
+        vc.ensure('pause_served_or_remembered', same_opt(th.active_until, until))
+    return ('throttled', served)
+
+
+# =============================================================================================== N3
+class _ClientResponse:
+    """stands for aiohttp.ClientResponse (only isinstance() is applied to it)"""
+
+
+class _Guard:
+    """asyncio.Condition by (trusted) contract: a lock + wait_for(pred), which returns at once if pred() holds
+    and otherwise releases the lock, lets other tasks run, and returns only when pred() holds again."""
+
+    def __init__(self, vc, others):
+        self.vc, self.others, self.held = vc, others, False
+
+    async def __aenter__(self):
+        self.vc.emit('guard.acquire')
+        self.held = True
+
+    async def __aexit__(self, *exc):
+        self.vc.emit('guard.release')
+        self.held = False
+        return False
+
+    def notify_all(self):
+        self.vc.emit('notify_all', self.held)
+
+    async def wait_for(self, pred):
+        self.vc.emit('wait_for', self.held)
+        if pred():
+            return True
+        await suspend('guard.wait_for')
+        self.others()                       # what the other tasks (the authenticator) do meanwhile
+        if not pred():
+            raise Unsupported('rely broken: wait_for() may only return when its predicate holds')
+        return True
+
+
+class _Unauthorized2(errors.APIUnauthorizedError):
+    pass
+
+
+class _OtherError(Exception):
+    pass
+
+
+@harness('N3', targets=['kopf._cogs.clients.auth.authenticated', 'kopf._cogs.structs.credentials.Vault.invalidate',
+                        'kopf._cogs.structs.credentials.Vault._update_converted', 'kopf._cogs.structs.credentials.Vault.select',
+                        'kopf._cogs.structs.credentials.Vault.populate'],
+         props=['C12'],
+         clauses=['explicit_context_passthrough', 'calls_with_fresh_context', 'reauth_on_401', 'others_at_once',
+                  'invalidate_removes_only_identical', 'invalidated_remembered', 'blocks_until_reauthenticated',
+                  'login_error_if_still_empty', 'invalid_not_readmitted', 'select_from_current', 'populate_releases_waiters'],
+         canaries=['canary.never_reauthenticates', 'canary.always_removes', 'canary.always_admits'],
+         trusted=['asyncio.Condition by contract (lock; wait_for returns only when its predicate holds; other tasks run while it waits)',
+                  'Vault.extended()/_items() as an async iterator of (key, info, context) triples: by contract, see N3 docstring',
+                  'contextvars.ContextVar.get', 'random.choice returns a member of its argument',
+                  'dataclass equality of KubeContext objects (real objects are used)'])
+def N3(vc):
+    """
+    The per-task re-authentication protocol, five scenarios (one harness, chosen by a nondet):
+    (a) auth.authenticated(fn) -- by a LOOP CONTRACT over `async for key, info, context in vault.extended(..)`
+        (any number of re-authentication rounds): with an explicit `context=` it is a plain call (no vault, no
+        re-auth; a ClientResponse is registered with that context); otherwise, in every round fn is called once
+        with the caller's arguments and the context *of this round*; a result is returned at once (a
+        ClientResponse registered with this round's context); APIUnauthorizedError / APISessionClosed (and
+        subclasses) => `await vault.invalidate(key, info, exc=e)` with this round's key/info and that
+        exception, and only then the next credentials are taken; anything else propagates at once,
+        nothing is invalidated.
+    (b) Vault.invalidate(key, info, exc) on a vault of <= 2 keys and a per-key history of <= 3 (BOUNDED in the
+        vault size; the method only touches `key`'s entries): the item is removed iff it is the *identical*
+        info (`is`; an equal re-added copy stays); the removed item is remembered as the newest of at most 3;
+        other keys are untouched; only when nothing is left, `_ready := False`, waiters are notified (under the
+        lock) and the call blocks until the authenticator has made the vault ready again; if it is still empty
+        then and an exception was given, LoginError(from that exception) is raised.
+    (c) Vault._update_converted: credentials equal to a remembered invalid one are not (re-)admitted.
+    (d) Vault.select: hands out only a current item (`_current[key] is item`) of the top priority;
+        LoginError iff there is none.      (e) Vault.populate: adds through _update_converted, then sets
+        `_ready` and notifies the waiters, under the lock.
+    (b)+(c)+(d) give "invalidated credentials are not handed out again" (while remembered: the last 3 per key).
+    NOT DECIDED here: "one re-authentication for N concurrent requests" and "all blocked requests proceed"
+    (a statement over concurrent tasks and Condition wake-ups), Vault._items/extended themselves (async
+    generators around the same Condition), expiration.
+    """
+    scenario = ['authenticated', 'invalidate', 'update_converted', 'select', 'populate'][vc.nondet(5, 'scenario')]
+    return {'authenticated': _n3_authenticated, 'invalidate': _n3_invalidate, 'update_converted': _n3_update,
+            'select': _n3_select, 'populate': _n3_populate}[scenario](vc)
+
+
+def _n3_authenticated(vc):
+    args, kw_extra = (Opaque('arg0'),), {'settings': Opaque('settings')}
+    st = {'round': None, 'calls': [], 'raised': None, 'result': None, 'invalidate_raises': None}
+    explicit = vc.nondet(2, 'explicit context?') == 1
+
+    class Context:
+        def __init__(self, name):
+            self.name, self.responses = name, []
+
+        def add_response(self, response):
+            vc.emit('add_response', self, response)
+
+    async def fn(*a, **kw):
+        vc.emit('fn', a, kw)
+        await suspend('fn')
+        kinds = ['response', 'value', errors.APIUnauthorizedError, _Unauthorized2, errors.APISessionClosed,
+                 errors.APIForbiddenError, errors.APIError, _OtherError, asyncio.CancelledError]
+        k = kinds[vc.nondet(len(kinds), 'fn outcome')]
+        if k == 'response':
+            st['result'] = _ClientResponse(); return st['result']
+        if k == 'value':
+            st['result'] = Opaque('value'); return st['result']
+        st['raised'] = k(None, status=401, headers={}) if issubclass(k, errors.APIError) else k('x')
+        raise st['raised']
+    fn.__name__ = 'request'
+
+    class Vault:
+        def extended(self, factory, purpose=None):
+            vc.emit('extended', factory, purpose)
+            return self
+
+        async def invalidate(self, key, info, *, exc=None):
+            vc.emit('invalidate', key, info, exc)
+            await suspend('vault.invalidate')
+            if vc.nondet(2, 'invalidate: returns / LoginError') == 1:
+                st['invalidate_raises'] = credentials.LoginError('Ran out of valid credentials.')
+                raise st['invalidate_raises']
+    vault = Vault()
+    vault_var = Opaque('vault_var')
+    vault_var.get = lambda: (vc.emit('vault_var.get'), vault)[1]
+
+    phase = [0]
+
+    def this_round():
+        tr = vc.trace
+        heads = [i for i, ev in enumerate(tr) if ev[0] == 'loop-head']
+        return tr[heads[-1] + 1:] if heads else tr
+
+    def check_round(ev, at_backedge):
+        rnd = st['round']
+        calls = [e for e in ev if e[0] == 'fn']
+        invs = [e for e in ev if e[0] == 'invalidate']
+        vc.ensure('calls_with_fresh_context', len(calls) == 1 and rnd is not None)
+        for c in calls:
+            vc.ensure('calls_with_fresh_context', c[1] == args and c[2] == dict(kw_extra, context=rnd[2]))
+        r = st['raised']
+        reauth = r is not None and isinstance(r, (errors.APIUnauthorizedError, errors.APISessionClosed))
+        if at_backedge:
+            vc.ensure('reauth_on_401', reauth)
+        if reauth:
+            vc.ensure('reauth_on_401', len(invs) == 1 and len(calls) == 1
+                      and ev.index(invs[0]) > ev.index(calls[0]))
+            for i in invs:
+                vc.ensure('reauth_on_401', i[1] is rnd[0] and i[2] is rnd[1] and i[3] is r)
+        else:
+            vc.ensure('others_at_once', len(invs) == 0)
+        return reauth
+
+    def invariant(loc):
+        phase[0] += 1
+        if phase[0] == 3:
+            vc.canary('canary.never_reauthenticates', False)
+            check_round(this_round(), True)
+            vc.ensure('reauth_on_401', st['invalidate_raises'] is None)
+        return True
+
+    def element(loc, iterable):
+        if iterable is not vault:
+            raise Unsupported('the loop iterates over something else than vault.extended()')
+        k = vc.nondet(3, 'extended(): yields / exhausted / LoginError')
+        if k == 1:
+            return _STOP
+        if k == 2:
+            st['raised'] = credentials.LoginError('Ran out of valid credentials.')
+            st['round'] = 'login-error'
+            raise st['raised']
+        st['round'] = (Opaque('key'), Opaque('info'), Context('round'))
+        return st['round']
+
+    ld = vc.load('kopf._cogs.clients.auth', 'authenticated',
+                 stubs={'vault_var': vault_var, 'aiohttp.ClientResponse': _ClientResponse},
+                 loops={1: LoopSpec('async for key, info, context in vault.extended(', invariant=invariant, element=element)})
+    wrapper = ld.fn(fn)
+    ctx = Context('explicit')
+    kwargs = dict(kw_extra, context=ctx) if explicit else dict(kw_extra)
+    escaped = result = None
+    try:
+        result = vc.drive(wrapper(*args, **kwargs))
+    except BaseException as e:
+        if not_ours(e):
+            raise
+        escaped = e
+    tr = vc.trace
+    names = [ev[0] for ev in tr]
+    if explicit:
+        calls = [e for e in tr if e[0] == 'fn']
+        vc.ensure('explicit_context_passthrough', 'vault_var.get' not in names and 'invalidate' not in names and 'loop-head' not in names)
+        vc.ensure('explicit_context_passthrough', len(calls) == 1 and calls[0][1] == args and calls[0][2] == kwargs)
+        vc.ensure('explicit_context_passthrough', escaped is st['raised'] and result is st['result'])
+        adds = [e for e in tr if e[0] == 'add_response']
+        vc.ensure('explicit_context_passthrough',
+                  [(e[1], e[2]) for e in adds] == ([(ctx, result)] if isinstance(result, _ClientResponse) else []))
+        return ('explicit', type(escaped).__name__)
+    ext = [e for e in tr if e[0] == 'extended']
+    vc.ensure('calls_with_fresh_context', len(ext) == 1 and ext[0][1] is ld.ns['APIContext'])
+    ev = this_round()
+    if st['round'] is None:                 # exhausted: the documented "impossible state"
+        vc.ensure('others_at_once', isinstance(escaped, RuntimeError) and not any(e[0] in ('fn', 'invalidate') for e in ev))
+        return ('exhausted',)
+    if st['round'] == 'login-error':
+        vc.ensure('others_at_once', escaped is st['raised'] and not any(e[0] in ('fn', 'invalidate') for e in ev))
+        return ('login-error',)
+    reauth = check_round(ev, False)
+    adds = [e for e in ev if e[0] == 'add_response']
+    if escaped is None:
+        vc.ensure('others_at_once', st['raised'] is None and result is st['result'] and result is not None)
+        vc.ensure('others_at_once',
+                  [(e[1], e[2]) for e in adds] == ([(st['round'][2], result)] if isinstance(result, _ClientResponse) else []))
+        return ('return', type(result).__name__)
+    if reauth:
+        vc.ensure('reauth_on_401', escaped is st['invalidate_raises'] and escaped is not None)
+        return ('reauth-failed',)
+    vc.ensure('others_at_once', escaped is st['raised'] and len(adds) == 0)
+    return ('raise', type(escaped).__name__)
+
+
+def _mk_infos():
+    a = credentials.ConnectionInfo(server='https://a', token='t1')
+    a_copy = credentials.ConnectionInfo(server='https://a', token='t1')      # equal, not identical
+    b = credentials.ConnectionInfo(server='https://a', token='t2', priority=5)
+    return a, a_copy, b
+
+
+class _VaultState:
+    """The fields of a Vault the methods under contract work on (a real Vault needs a running loop for its Condition)."""
+
+    def __init__(self, vc, others=lambda: None):
+        self.vc = vc
+        self._current = {}
+        self._invalid = collections.defaultdict(list)
+        self._ready = True
+        self._guard = _Guard(vc, others)
+        self._next_expiration = None
+
+    async def _flush_caches(self, item):
+        self.vc.emit('flush_caches', item)
+
+    def _update_expiration(self):
+        self.vc.emit('update_expiration')
+
+    def _update_converted(self, src):
+        self.vc.emit('update_converted', src, self._guard.held)
+
+
+def _n3_invalidate(vc):
+    a, a_copy, b = _mk_infos()
+    V, Item = _VaultState, credentials.VaultItem
+    refill = vc.nondet(2, 're-authentication: brings new credentials / none')
+
+    def others():
+        # the authenticator task (Vault.populate, scenario (e)): maybe new credentials; ready again
+        if refill == 0:
+            v._current['new'] = Item(info=b)
+        v._ready = True
+    v = V(vc, others)
+    mine = ['absent', 'identical', 'equal-copy', 'different'][vc.nondet(4, "_current[key]")]
+    if mine != 'absent':
+        v._current['k'] = Item(info={'identical': a, 'equal-copy': a_copy, 'different': b}[mine])
+    has_other = vc.nondet(2, 'another key present?') == 1
+    if has_other:
+        v._current['o'] = Item(info=b)
+    hist = [Item(info=credentials.ConnectionInfo(server=f'https://old{i}')) for i in range(vc.nondet(4, 'history length'))]
+    v._invalid['k'] = list(hist)
+    exc = errors.APIUnauthorizedError(None, status=401, headers={}) if vc.nondet(2, 'exc given?') == 1 else None
+    pre = dict(v._current)
+    seen = {}
+
+    def on_suspend(site):
+        if site == 'guard.wait_for':        # the state the other tasks see while this one is blocked
+            seen.update(current=dict(v._current), ready=v._ready, invalid=list(v._invalid['k']))
+    ld = vc.load('kopf._cogs.structs.credentials', 'Vault.invalidate')
+    escaped = None
+    try:
+        vc.drive(ld.fn(v, 'k', a, exc=exc), on_suspend)
+    except BaseException as e:
+        if not_ours(e):
+            raise
+        escaped = e
+    tr = vc.trace
+    names = [ev[0] for ev in tr]
+    after_removal = seen['current'] if seen else {k: x for k, x in v._current.items() if k != 'new'}
+    removed = mine == 'identical'
+    vc.canary('canary.always_removes', 'k' not in after_removal)
+    vc.ensure('invalidate_removes_only_identical', ('k' not in after_removal) == (removed or mine == 'absent'))
+    vc.ensure('invalidate_removes_only_identical', all(after_removal.get(k) is x for k, x in pre.items() if k != 'k' or not removed))
+    vc.ensure('invalidate_removes_only_identical', set(after_removal) <= set(pre))
+    now_hist = v._invalid['k']
+    if removed:
+        vc.ensure('invalidated_remembered', len(now_hist) <= 3 and now_hist[-1] is pre['k'])
+        vc.ensure('invalidated_remembered', len(now_hist) == min(3, len(hist) + 1)
+                  and all(x is y for x, y in zip(now_hist[:-1], hist[-(len(now_hist) - 1):] if len(now_hist) > 1 else [])))
+    else:
+        vc.ensure('invalidated_remembered', len(now_hist) == len(hist) and all(x is y for x, y in zip(now_hist, hist)))
+    nothing_left = len(after_removal) == 0
+    waited = bool(seen)
+    vc.ensure('blocks_until_reauthenticated', waited == nothing_left)
+    if waited:
+        vc.ensure('blocks_until_reauthenticated', seen['ready'] is False)
+        notes = [ev for ev in tr if ev[0] == 'notify_all']
+        vc.ensure('blocks_until_reauthenticated', len(notes) >= 1 and all(ev[1] for ev in notes)
+                  and names.index('notify_all') < names.index('wait_for'))
+        vc.ensure('blocks_until_reauthenticated', v._ready is True)
+    else:
+        vc.ensure('blocks_until_reauthenticated', v._ready is True and 'notify_all' not in names)
+    vc.ensure('blocks_until_reauthenticated', names.count('guard.acquire') == names.count('guard.release') and not v._guard.held)
+    still_empty = len(v._current) == 0
+    if still_empty and exc is not None:
+        vc.ensure('login_error_if_still_empty', isinstance(escaped, credentials.LoginError) and escaped.__cause__ is exc)
+    else:
+        vc.ensure('login_error_if_still_empty', escaped is None)
+    return ('invalidate', mine, has_other, len(hist), waited, type(escaped).__name__)
+
+
+def _n3_update(vc):
+    a, a_copy, b = _mk_infos()
+    Item = credentials.VaultItem
+    v = _VaultState(vc)
+    remembered = [[], [a], [b, a], [a, b, credentials.ConnectionInfo(server='https://c')]][vc.nondet(4, 'remembered invalid infos')]
+    v._invalid['k'] = [Item(info=i) for i in remembered]
+    had = vc.nondet(2, 'key currently present?') == 1
+    old_item = Item(info=b)
+    if had:
+        v._current['k'] = old_item
+    new = [a, a_copy, b, credentials.ConnectionInfo(server='https://fresh'), 'not-a-KubeContext'][vc.nondet(5, 'incoming info')]
+    ld = vc.load('kopf._cogs.structs.credentials', 'Vault._update_converted')
+    escaped = None
+    try:
+        ld.fn(v, {'k': new})
+    except Exception as e:
+        if not_ours(e):
+            raise
+        escaped = e
+    if not isinstance(new, credentials.KubeContext):
+        vc.ensure('invalid_not_readmitted', isinstance(escaped, ValueError) and v._current.get('k') is (old_item if had else None))
+        return ('rejected-type',)
+    is_remembered = any(new == r for r in remembered)
+    now = v._current.get('k')
+    admitted = now is not None and now is not old_item        # a new item was put in
+    vc.canary('canary.always_admits', admitted)
+    vc.ensure('invalid_not_readmitted', escaped is None and admitted == (not is_remembered))
+    vc.ensure('invalid_not_readmitted', not admitted or now.info is new)
+    if is_remembered:
+        vc.ensure('invalid_not_readmitted', v._current.get('k') is (old_item if had else None))
+    vc.ensure('invalid_not_readmitted', set(v._current) <= {'k'} and [x.info for x in v._invalid['k']] == remembered)
+    return ('update', admitted)
+
+
+def _n3_select(vc):
+    a, a_copy, b = _mk_infos()
+    Item = credentials.VaultItem
+    v = _VaultState(vc)
+    shape = vc.nondet(4, 'vault content')
+    content = [{}, {'k': Item(info=a)}, {'k': Item(info=a), 'o': Item(info=b)}, {'k': Item(info=a), 'k2': Item(info=a_copy), 'o': Item(info=b)}][shape]
+    if vc.nondet(2, 'priorities flipped?') == 1:
+        content = {k: Item(info=credentials.ConnectionInfo(server='https://x', priority=-x.info.priority)) for k, x in content.items()}
+    v._current = dict(content)
+
+    def choice(seq):
+        seq = list(seq)
+        return seq[vc.nondet(len(seq), 'random.choice')]
+    ld = vc.load('kopf._cogs.structs.credentials', 'Vault.select', stubs={'random.choice': choice})
+    escaped = result = None
+    try:
+        result = ld.fn(v)
+    except Exception as e:
+        if not_ours(e):
+            raise
+        escaped = e
+    if not content:
+        vc.ensure('select_from_current', isinstance(escaped, credentials.LoginError))
+        return ('empty',)
+    vc.ensure('select_from_current', escaped is None and isinstance(result, tuple) and len(result) == 2)
+    key, item = result
+    vc.ensure('select_from_current', key in content and content[key] is item and v._current == content)
+    vc.ensure('select_from_current', item.info.priority == max(x.info.priority for x in content.values()))
+    return ('selected', key)
+
+
+def _n3_populate(vc):
+    v = _VaultState(vc)
+    v._ready = vc.nondet(2, '_ready before') == 1
+    src = {'k': _mk_infos()[0]}
+    ld = vc.load('kopf._cogs.structs.credentials', 'Vault.populate')
+    vc.drive(ld.fn(v, src))
+    tr = vc.trace
+    names = [ev[0] for ev in tr]
+    ups = [ev for ev in tr if ev[0] == 'update_converted']
+    notes = [ev for ev in tr if ev[0] == 'notify_all']
+    vc.ensure('populate_releases_waiters', len(ups) == 1 and ups[0][1] is src and ups[0][2] is True)
+    vc.ensure('populate_releases_waiters', v._ready is True and len(notes) == 1 and notes[0][1] is True
+              and names.index('update_converted') < names.index('notify_all'))
+    vc.ensure('populate_releases_waiters', not v._guard.held)
+    return ('populated',)
